@@ -41,7 +41,7 @@ ASSUMPTIONS = [
 ]
 BOUNDS = {"quick": "n in 1..5 x k in 1..4, deviations <= 2; (17,16) and (33,16) deviations <= 1; faults at every position for n<=4,k in {2,3}",
           "thorough": "n in 1..7 x k in 1..4, deviations <= 3; (17,16), (33,16), (9,2) deviations <= 2"}
-REQUIRED_BUCKETS = {t: ["schedules:replayed", "schedules:reordered-completion", "faults:raised-in-worker", "faults:timeout", "content:records", "content:catalogue-records", "content:origin-spanning-gene-records", "histories:checked"]
+REQUIRED_BUCKETS = {t: ["schedules:replayed", "schedules:reordered-completion", "faults:raised-in-worker", "faults:timeout", "content:records", "content:catalogue-records", "content:origin-spanning-gene-records", "histories:checked", "preprocess:compared"]
                     for t in ("quick", "thorough")}
 N_MAX = 40
 WATCHDOG = 60.0
@@ -84,6 +84,50 @@ def state_task(index):
     ensure_cds_info depends on the configuration): run one after another in-process it sees the current value"""
     from antismash.config import get_config  # pylint: disable=import-outside-toplevel
     return (index, PARENT_STATE["value"], get_config().get("verif_marker", None))
+
+
+RAW_RECORDS = [
+    # (id, sequence, has a gene of its own)
+    ("plain", "ATGAAACCCGGGTTTTAAACGT", True),
+    ("gappy", "ATG-AAA--CCCGGGTTTTAA-", False),
+    ("dirty", "atgaaaRYKcccgggttttaaNN", False),
+    ("empty-ish", "------", False),
+    ("plain", "ATGCCCAAAGGGTTTTAGACGTAC", True),                 # a duplicate id
+    ("a-very-long-record-name.1", "ATGAAACCCGGGTTTTAAACGTACGT", False),
+]
+
+
+def _raw_record(index):
+    from antismash.common.secmet import Record  # pylint: disable=import-outside-toplevel
+    from antismash.common.secmet.features import CDSFeature  # pylint: disable=import-outside-toplevel
+    from antismash.common.secmet.locations import FeatureLocation  # pylint: disable=import-outside-toplevel
+    from Bio.Seq import Seq  # pylint: disable=import-outside-toplevel
+    rid, seq, gene = RAW_RECORDS[index]
+    rec = Record(Seq(seq))
+    rec.id = rec.name = rid
+    rec.add_annotation("topology", "linear")
+    rec.add_annotation("molecule_type", "DNA")
+    if gene:
+        rec.add_cds_feature(CDSFeature(FeatureLocation(0, 18, 1), locus_tag=f"own_{index}", translation="MKPGF"))
+    return rec
+
+
+def check_preprocess(indices, cpus):
+    """pre_process_sequences (sanitising and gene finding run through the parallel helper) with `cpus` workers against the same
+    list processed with one worker, i.e. in-process and in order"""
+    from mc.ref.deepstate import deep_state  # pylint: disable=import-outside-toplevel
+    outcomes = []
+    for workers in (1, cpus):
+        options = Cfg.make_config_with(Cfg.FindingGenefinding, ["--cpus", str(workers), "--genefinding-tool", "fake"])
+        try:
+            result = record_processing.pre_process_sequences([_raw_record(i) for i in indices], options, Cfg.FindingGenefinding)
+            outcomes.append(("ok", [deep_state(rec) for rec in result]))
+        except Exception as err:  # pylint: disable=broad-except
+            outcomes.append(("raised", type(err).__name__, str(err)[:100]))
+    if outcomes[0] != outcomes[1]:
+        first = outcomes[0][0], outcomes[1][0]
+        return [("preprocessing-differs-from-one-worker", f"records {indices} cpus={cpus}: {first}")]
+    return []
 
 
 HISTORY_OPS = ["set:1", "set:2", "run:2x3", "run:3x2", "run:2x1"]
@@ -432,6 +476,7 @@ def shards(tier):
         out.append(["schedules", n, k, bound])
     out.append(["faults", fault_grid])
     out.append(["histories", 3 if tier == "quick" else 4])
+    out.append(["preprocess", 2 if tier == "quick" else 3])
     out.append(["content", tier])
     return out
 
@@ -466,6 +511,22 @@ def run_shard(shard):
         res.evals += 1
         res.outcomes[("faults", len(shard[1]))] += 1
         res.sample({"kind": "faults", "n": 2, "k": 2}, 1)
+    elif shard[0] == "preprocess":
+        size = shard[1]
+        lists = [list(combo) for k in range(1, size + 1) for combo in itertools.product(range(len(RAW_RECORDS)), repeat=k)
+                 if len(set(combo)) == len(combo)]
+        lists.append(list(range(len(RAW_RECORDS))))
+        lists.append(list(range(len(RAW_RECORDS)))[::-1])
+        for indices in lists:
+            for cpus in ((2, 3) if len(indices) > 1 else (2,)):
+                res.evals += 1
+                res.nontrivial += len(indices) > 1
+                fails = check_preprocess(indices, cpus)
+                res.buckets["preprocess:compared"] += 1
+                res.outcomes[("preprocess", len(indices), cpus, len(fails))] += 1
+                for clause, detail in fails:
+                    res.fail({"kind": "preprocess", "records": indices, "cpus": cpus}, clause, detail)
+        res.sample({"kind": "preprocess", "records": [0, 1, 2], "cpus": 2}, 1)
     elif shard[0] == "histories":
         Cfg.make_config(["--cpus", "2"])
         depth = shard[1]
@@ -506,6 +567,8 @@ def replay(case):
         return check_schedules(case["n"], case["k"], case["bound"])[0]
     if case["kind"] == "faults":
         return check_faults(case["n"], case["k"]) + check_timeout(case["n"], case["k"])
+    if case["kind"] == "preprocess":
+        return check_preprocess(case["records"], case["cpus"])
     if case["kind"] == "history":
         Cfg.make_config(["--cpus", "2"])
         return check_history(case["ops"])
